@@ -6,6 +6,9 @@ import MjProof.Lemmas.Sparse
 import MjProof.Lemmas.SparseD2S
 import MjProof.Lemmas.SparseCompress
 import MjProof.Lemmas.SparseTranspose
+import MjProof.Lemmas.SparseCombine
+import MjProof.Lemmas.SparseSym
+import MjProof.Lemmas.LinAlgDense
 import MjProof.Lemmas.LinAlgCert
 /-
 C23  Linear algebra routines agree with their definitions.
@@ -32,6 +35,18 @@ theorem mulMatVec_eq {nr nc : Nat} (M : Vector ℝ (nr * nc)) (v : Vector ℝ nc
   rw [← getElem_eq_vget _ r hr, Vector.getElem_ofFn]
   exact dotFn_congr_range nc _ (fun c => mget M r c * vget v c)
     (by intro k; simp [at2_eq_mget, getElem_eq_vget])
+
+/-- `mju_mulMatTVec` (rows with a zero multiplier skipped, accumulation by `mju_addToScl`) is the transposed
+matrix–vector product. -/
+theorem mulMatTVec_eq {nr nc : Nat} (M : Vector ℝ (nr * nc)) (v : Vector ℝ nr) (c : Nat) (hc : c < nc) :
+    vget (mulMatTVec M v) c = ∑ r ∈ range nr, mget M r c * vget v r :=
+  mulMatTVec_spec M v c hc
+
+/-- `mju_sqrMatTD` (lower triangle accumulated row by row with zero entries skipped, then mirrored) is
+`Mᵀ · diag · M` — the dense counterpart of `mju_sqrMatTDSparse`. -/
+theorem sqrMatTD_eq {nr nc : Nat} (M : Vector ℝ (nr * nc)) (d : Vector ℝ nr) (a b : Nat) (ha : a < nc) (hb : b < nc) :
+    mget (sqrMatTD M d) a b = ∑ j ∈ range nr, mget M j a * vget d j * mget M j b :=
+  sqrMatTD_spec M d a b ha hb
 
 /-! ### Cholesky -/
 
@@ -231,6 +246,74 @@ theorem dense2sparse_sparse2dense {nr nc cap nnz : Nat} (p : Pat nr nc cap) (hnd
         denseOf q (dense2sparse (sparse2dense p mat) init).res a b = denseOf p mat a b := by
   obtain ⟨q, h1, h2, h3, -, hrep⟩ := dense2sparse_pat (sparse2dense p mat) hnnz hcap init
   exact ⟨q, h1, h2, h3, fun a b ha hb => by rw [hrep a b ha hb, sparse2dense_eq p hnd]⟩
+
+/-- `mju_mulSymVecSparse` on symmetric lower-triangular storage (every row non-empty, its last entry on the
+diagonal, the others strictly below it): no out-of-range access and
+`res = (D + strict_lower(D)ᵀ) · vec`, `D` the represented lower-triangular matrix. -/
+theorem mulSymVecSparse_eq_dense {n cap : Nat} (p : Pat n n cap) (hs : SymStore p) (mat : Vector ℝ cap)
+    (vec : Vector ℝ n) :
+    ∃ res, mulSymVecSparse p mat vec = some res ∧ ∀ a, a < n →
+      vget res a = ∑ c ∈ range n, denseOf p mat a c * vget vec c
+        + ∑ r ∈ Ico (a + 1) n, denseOf p mat r a * vget vec r :=
+  mulSymVecSparse_spec p hs mat vec
+
+/-- symmetric lower-triangular storage of a 2×2 matrix: rows `{0}` and `{0,1}` -/
+def exSym : Pat 2 2 3 where
+  rownnz := #v[1, 2]
+  rowadr := #v[0, 1]
+  colind := #v[0, 0, 1]
+  hrow := by decide
+  hcol := by decide
+
+example : SymStore exSym := by
+  refine ⟨?_, ?_, ?_⟩
+  · intro i hi
+    have : i = 0 ∨ i = 1 := by omega
+    rcases this with rfl | rfl <;> decide
+  · intro i hi
+    have : i = 0 ∨ i = 1 := by omega
+    rcases this with rfl | rfl <;> decide
+  · intro i hi k hk
+    have : i = 0 ∨ i = 1 := by omega
+    rcases this with rfl | rfl
+    · have h1 : nget exSym.rownnz 0 = 1 := by decide
+      rw [h1] at hk; omega
+    · have h1 : nget exSym.rownnz 1 = 2 := by decide
+      rw [h1] at hk
+      have : k = 0 := by omega
+      subst this; decide
+
+/-- `mju_combineSparseCount` on strictly increasing index arrays is the size of the union: the two lengths minus
+the number of common indices. -/
+theorem combineSparseCount_eq {na nb : Nat} (a : Vector Nat na) (b : Vector Nat nb)
+    (ha : SortedUpto a na) (hb : SortedUpto b nb) :
+    combineSparseCount a b = na + nb - pairCount a b na nb := by
+  unfold combineSparseCount
+  rw [commonCount_full a b na nb le_rfl le_rfl ha hb]
+
+/-- **combineSparse = a·dst + b·src.**  For strictly increasing index arrays (`dst` uses the first `dn` of its
+`cap` slots) whose union fits into the `cap` slots: `mju_combineSparse` performs only in-range accesses (although
+it merges backwards *in place*), returns `nnz` = size of the union, the resulting index array is strictly
+increasing and the represented sparse vector is `a·dst + b·src` (`vecSeg ind val 0 n j` is the value at index `j`).
+Covers the identical-pattern fast path, the backward merge and the `a == 1` shortcut. -/
+theorem combineSparse_eq_dense {cap ns : Nat} (a b : ℝ) (dn : Nat) (ind : Vector Nat cap) (dst : Vector ℝ cap)
+    (src : Vector ℝ ns) (srcInd : Vector Nat ns) (hA : SortedUpto ind dn) (hB : SortedUpto srcInd ns) (hdn : dn ≤ cap)
+    (hfit : dn + ns - pairCount ind srcInd dn ns ≤ cap) :
+    ∃ out nnz, combineSparse a b dn { dst := dst, ind := ind } src srcInd = some (out, nnz) ∧
+      nnz + pairCount ind srcInd dn ns = dn + ns ∧ SortedUpto out.ind nnz ∧
+      ∀ j, vecSeg out.ind out.dst 0 nnz j = a * vecSeg ind dst 0 dn j + b * vecSeg srcInd src 0 ns j :=
+  combineSparse_spec a b dn ind dst src srcInd hA hB hdn hfit
+
+/-- non-vacuity: `dst = {1, 4}` (capacity 3), `src = {4, 7}`: sorted, one common index, union of size 3 fits -/
+example : SortedUpto (#v[1, 4, 0] : Vector Nat 3) 2 ∧ SortedUpto (#v[4, 7] : Vector Nat 2) 2 ∧
+    2 + 2 - pairCount (#v[1, 4, 0] : Vector Nat 3) (#v[4, 7] : Vector Nat 2) 2 2 ≤ 3 := by
+  refine ⟨?_, ?_, by decide⟩
+  · intro k k' h1 h2
+    have : k = 0 ∧ k' = 1 := by omega
+    rw [this.1, this.2]; decide
+  · intro k k' h1 h2
+    have : k = 0 ∧ k' = 1 := by omega
+    rw [this.1, this.2]; decide
 
 /-- **compressSparse preserves the represented matrix.**  For a pattern whose rows are stored in increasing
 address order without overlap (`rowadr[r] + rownnz[r] ≤ rowadr[r+1]`; gaps allowed — e.g. the uncompressed layout)
